@@ -747,6 +747,19 @@ func TestVerifC02(t *testing.T) {
 		})
 	}
 
+	if tier == "thorough" {
+		// a few cases with packages of up to 300 entries (2-byte index keys
+		// beyond 255, multi-byte filters)
+		for n := 0; n < 4; n++ {
+			id++
+			caseID := id
+			cs := seed*1_000_003 + int64(n)*977 + 9_001
+			t.Run(fmt.Sprintf("big_%d", n), func(t *testing.T) {
+				c02fStoreCase(t, w, caseID, cs, 30, 300, stats)
+			})
+		}
+	}
+
 	keys := make([]string, 0, len(stats))
 	for k := range stats {
 		keys = append(keys, k)
